@@ -409,6 +409,31 @@ pub fn find_json_escape(bytes: &[u8], start: usize) -> usize {
     json_escape::find(bytes, start)
 }
 
+/// verif-hooks: each tier of the JSON escape scanner, driven directly.
+/// `tier`: 0 = scalar, 1 = SSE2 kernel, 2 = AVX2 kernel (`None` without AVX2),
+/// 3 = `dispatch(.., use_avx2 = false)`, 4 = `dispatch(.., use_avx2 = true)` (`None` without AVX2).
+#[cfg(all(
+    feature = "verif-hooks",
+    target_arch = "x86_64",
+    not(feature = "scalar-yaml"),
+    feature = "std"
+))]
+pub fn verif_json_escape_tier(bytes: &[u8], start: usize, tier: u8) -> Option<usize> {
+    let len = bytes.len();
+    match tier {
+        0 => Some(json_escape::scalar(bytes, start)),
+        // SAFETY: SSE2 is the x86_64 baseline.
+        1 => Some(unsafe { json_escape::sse2(bytes, start) }.map_or(len, |off| start + off)),
+        2 if is_x86_feature_detected!("avx2") => {
+            // SAFETY: AVX2 checked above.
+            Some(unsafe { json_escape::avx2(bytes, start) }.map_or(len, |off| start + off))
+        }
+        3 => Some(json_escape::dispatch(bytes, start, false)),
+        4 if is_x86_feature_detected!("avx2") => Some(json_escape::dispatch(bytes, start, true)),
+        _ => None,
+    }
+}
+
 // ---- Carriage-return existence scan -----------------------------------------
 //
 // The `has_cr` precheck the YAML oracle uses to pick its `HAS_CR`
